@@ -93,6 +93,10 @@ class SeqHooks(GslHooks):
 
     def override_call(self, it, fdecl, node, args, this_cell):
         nm = fdecl['name']
+        if nm == 'squids::Const::GetMixingAngle':
+            return Poly.var('th_%s_%s' % (it.eval(args[0]), it.eval(args[1])))
+        if nm == 'squids::Const::GetPhase':
+            return Poly.var('del_%s_%s' % (it.eval(args[0]), it.eval(args[1])))
         if nm == 'squids::SU_vector::Rotate' and len(fdecl['params']) == 4:
             vals = [it.eval(a) for a in args]
             self.seq.append(tuple(vals))
